@@ -176,7 +176,12 @@ def errnoOf : CResp → Nat
   | .err e => e
   | .moved _ => 0
 
-def connectCall (blocking : Bool) (limit : Nat) (start : Nat) (first : CResp) (waits : List WResp) : Out :=
+def ETIMEDOUT : Nat := 110
+
+/-- `if r == -1 && errno == ETIMEDOUT { set_errno(EINPROGRESS) }` at the end of the hooked connect -/
+def remapTimeout (o : Out) : Out := if o.ret = -1 ∧ o.errno = ETIMEDOUT then { o with errno := EINPROGRESS } else o
+
+def connectCore (blocking : Bool) (limit : Nat) (start : Nat) (first : CResp) (waits : List WResp) : Out :=
   let base : Out := { ret := 0, errno := 0, reqs := [⟨[], 1⟩], waits := [], blockingAfter := blocking, elapsed := 0, moved := 0, lastErr := none }
   match first with
   | .moved _ => base                                            -- connected at once
@@ -189,5 +194,8 @@ def connectCall (blocking : Bool) (limit : Nat) (start : Nat) (first : CResp) (w
       | .full :: _ => { base with waits := [waitTime start limit start], elapsed := waitTime start limit start, lastErr := some (errnoOf r) }
       | .ev ns :: _ => { base with waits := [waitTime start limit start], elapsed := min ns (waitTime start limit start), lastErr := some (errnoOf r) }
       | [] => { base with ret := -1, errno := errnoOf r, lastErr := some (errnoOf r), waits := [waitTime start limit start] }
+
+def connectCall (blocking : Bool) (limit : Nat) (start : Nat) (first : CResp) (waits : List WResp) : Out :=
+  remapTimeout (connectCore blocking limit start first waits)
 
 end Oc.Nio
